@@ -225,6 +225,31 @@ def f18_special_over_dangling(xcp, d):
             bad.append("%s: exit %d, destination is a FIFO: %s" % (drv, rc, stat.S_ISFIFO(os.lstat(os.path.join(w, "o")).st_mode)))
     return bad
 
+def f19_block_size_zero(xcp, d):
+    """C16: --block-size 0 is rejected before anything is created"""
+    bad = []
+    for drv in ("parfile", "parblock"):
+        w = os.path.join(d, drv); os.makedirs(w)
+        open(os.path.join(w, "a"), "w").write("x\n")
+        rc, err = run(xcp, ["--block-size", "0", "--driver", drv, "a", "b"], w)
+        if rc == 0 or os.path.lexists(os.path.join(w, "b")):
+            bad.append("%s: exit %d, destination created: %s" % (drv, rc, os.path.lexists(os.path.join(w, "b"))))
+    return bad
+
+def f20_backup_readdir_error(xcp, d):
+    """C09/C04: a failing getdents64 during the backup-number scan must not make .~1~ be handed out again"""
+    bad = []
+    for drv in ("parfile", "parblock"):
+        w = os.path.join(d, drv); os.makedirs(os.path.join(w, "d"))
+        open(os.path.join(w, "src"), "w").write("v3\n"); open(os.path.join(w, "d", "f"), "w").write("v2\n")
+        open(os.path.join(w, "d", "f.~1~"), "w").write("v1\n")
+        p = subprocess.run(["strace", "-f", "-qq", "-o", "/dev/null", "-e", "trace=getdents64", "-e", "inject=getdents64:error=EIO:when=1",
+                            xcp, "--workers", "1", "--driver", drv, "--backup=numbered", "src", "d/f"], cwd=w,
+                           env=dict(os.environ, RUST_BACKTRACE="0"), capture_output=True, text=True, timeout=60)
+        if open(os.path.join(w, "d", "f.~1~")).read() != "v1\n":
+            bad.append("%s: exit %d, the existing backup f.~1~ was replaced" % (drv, p.returncode))
+    return bad
+
 ALL = {"new:create-before-identity-check": f1_self_copy, "parfile:symlink-result-discarded": f2_symlink_result,
        "copy_node:dev-not-rdev": f3_device_number, "parblock:short-copy-not-retried": f5_short_copy,
        "walker:deref-does-not-follow-dir-links": f8_deref_dir_link, "finalise:chown-after-chmod": f9_setid_ownership,
@@ -235,7 +260,9 @@ ALL = {"new:create-before-identity-check": f1_self_copy, "parfile:symlink-result
        "walker:root-symlink-followed": f13_root_symlink,
        "walker:gitignore-root-filtered": f14_gitignore_root, "walker:gitignore-isdir-follows-links": f15_gitignore_dirlink,
        "walker:gitignore-error-dropped": f16_gitignore_unreadable,
-       "walker:noclobber-dangling-link": f17_noclobber_dangling, "worker-special:dangling-link-not-replaced": f18_special_over_dangling}
+       "walker:noclobber-dangling-link": f17_noclobber_dangling, "worker-special:dangling-link-not-replaced": f18_special_over_dangling,
+       "main:block-size-zero": f19_block_size_zero,
+       "backup:readdir-error-swallowed": f20_backup_readdir_error}
 
 def main():
     repo = sys.argv[1]
